@@ -20,7 +20,7 @@ def write_cfg(ctx, group, max_tamper, plens, model="tuple", emit=True):
     path = os.path.join(ctx.workdir, name)
     with open(path, "w") as f:
         f.write("SPECIFICATION Spec\nCONSTANTS\n  Schemes = {%s}\n  MaxTamper = %d\n  HashModel = \"%s\"\n"
-                "  PLens = {%s}\nINVARIANTS AcceptIffUnchanged IdAgreement%s\nCHECK_DEADLOCK FALSE\n"
+                "  PLens = {%s}\nINVARIANTS AcceptIffUnchanged IdAgreement NoBothEnds OnlyRightful%s\nCHECK_DEADLOCK FALSE\n"
                 % (", ".join('"%s"' % s for s in SCHEMES[group]), max_tamper, model,
                    ", ".join(str(p) for p in plens), " Emit" if emit else ""))
     return os.path.relpath(path, verif.TLA)
